@@ -36,7 +36,7 @@ _IDENT = re.compile(r'^[A-Za-z0-9_.\[\]@]+$')
 
 
 def shards(tier, seed):
-    per = 600 if tier == 'quick' else 3800
+    per = 600 if tier == 'quick' else 25000
     budget = 40 if tier == 'quick' else 500
     return [{'kind': 'random', 'count': per, 'budget_s': budget, 'max_g': 12 if tier == 'quick' else 30}
             for _ in range(16)]
